@@ -1,16 +1,5 @@
 import Np.Model.DType
 namespace Np.DT
-
-/-- C12: for every source dtype and every requested dtype the repaired constructor stores numpy's cast -/
-theorem fromAttributes_table :
-    ∀ src ∈ all, ∀ req ∈ (none :: all.map some),
-      fromAttributes src req = (req.getD src, .val src (req.getD src)) := by decide
-
-/-- D10 as a theorem about the shipped path: 9 source dtypes leave the buffer unwritten … -/
-theorem old_uninit : (all.filter fun d => (fromAttributesOld d none).2 = .uninit).length = 9 := by decide
-/-- … and every mismatching pair inside the switch is a raw reinterpretation -/
-theorem old_garbage : (fromAttributesOld .i64 (some .f64)).2 = .garbage := by decide
-
 /-- the table really quantifies over all 14 dtypes -/
 theorem all_complete (d : DType) : d ∈ all := by cases d <;> decide
 end Np.DT
